@@ -85,7 +85,22 @@ func hostile(rng *rand.Rand, g *fixture.Geo, r *swarm.Remote) hmsg {
 	// cancels that name blocks it is really waiting for (right or wrong sizes), chokes in between
 	if out := r.Outstanding(); len(out) > 0 && rng.IntN(2) == 0 {
 		k := out[rng.IntN(len(out))]
-		switch rng.IntN(6) {
+		switch rng.IntN(7) {
+		case 6:
+			// choke, then data for the blocks that follow the ones on the wire: storrent had them queued for
+			// us and has just withdrawn them
+			b := refwire.Encode(refwire.Msg{Kind: refwire.KChoke})
+			for j := uint32(1); j <= 4; j++ {
+				d := make([]byte, 16384)
+				if off := int64(k.Index)*int64(ps) + int64(k.Begin+j*16384); off+16384 <= g.Length {
+					g.TruthInto(d, off)
+				}
+				b = append(b, refwire.Encode(refwire.Msg{Kind: refwire.KPiece, Index: k.Index, Begin: k.Begin + j*16384, Data: d})...)
+			}
+			if rng.IntN(2) == 0 {
+				b = append(b, refwire.Encode(refwire.Msg{Kind: refwire.KUnchoke})...)
+			}
+			return hmsg{b, "targeted choke+following-blocks"}
 		case 0:
 			return enc(refwire.Msg{Kind: refwire.KChoke}, "targeted choke")
 		case 1:
